@@ -74,6 +74,8 @@ class BatchScenario:
                                   imputer=ImputerProxy(MarginalImputer(self.model, "joint", st), self.clock))
             self.kw = {"verbose": False}
         self.t = 0
+        self.storage = st
+        self.capacity = win if kind != "batch" else 10 ** 9
         self.cfg = {"explainer": kind, "d": d, "n_inner": n_inner, "original": self.original, "exact": True}
 
     def next_obs(self):
